@@ -308,6 +308,16 @@ func c15RunSign(t vk.TB, st *vk.Stats, c c15SignCase) {
 			}
 			ts = append(ts, nx)
 		}
+		// Format-learning injection: where the raw bytes of two signed byte fields of a proposal
+		// show up in its sign bytes, the text between them is what separates the fields in this
+		// scheme; a target whose first field carries "first + separator + second" and whose second
+		// field is absent must still get different sign bytes (domain separation of the fields).
+		for _, x := range append([]c15Target(nil), ts...) {
+			for _, inj := range c15Injections(x) {
+				ts = append(ts, inj.canon())
+				labels = append(labels, "injection-target")
+			}
+		}
 		nontrivial := false
 		var nCross, nSameKind, nEqual int64
 		for i := range ts {
@@ -390,4 +400,71 @@ func c15RunSign(t vk.TB, st *vk.Stats, c c15SignCase) {
 			}
 		}
 	})
+}
+
+// c15Injections builds, from the observed sign bytes of a proposal target, targets that
+// would collide with it if the scheme wrote field values without an unambiguous encoding.
+func c15Injections(x c15Target) []c15Target {
+	if x.Kind != 2 {
+		return nil
+	}
+	sb, cl, _ := c15SignBytes(x)
+	if cl != "" {
+		return nil
+	}
+	type field struct {
+		get func(c15Target) []byte
+		set func(*c15Target, []byte, bool)
+	}
+	hexField := func(p func(*c15Target) *string) field {
+		return field{
+			get: func(t c15Target) []byte { return c15Unhex(*p(&t)) },
+			set: func(t *c15Target, v []byte, _ bool) { *p(t) = fmt.Sprintf("%x", v) },
+		}
+	}
+	optField := func(p func(*c15Target) *c15Opt) field {
+		return field{
+			get: func(t c15Target) []byte { return p(&t).bytes() },
+			set: func(t *c15Target, v []byte, present bool) {
+				*p(t) = c15Opt{Set: present || len(v) > 0, V: fmt.Sprintf("%x", v)}
+			},
+		}
+	}
+	fields := []field{
+		hexField(func(t *c15Target) *string { return &t.PrevBlockHash }),
+		hexField(func(t *c15Target) *string { return &t.PrevAppStateHash }),
+		hexField(func(t *c15Target) *string { return &t.DataID }),
+		optField(func(t *c15Target) *c15Opt { return &t.AnnUser }),
+		optField(func(t *c15Target) *c15Opt { return &t.AnnDriver }),
+	}
+	var out []c15Target
+	for i, fa := range fields {
+		a := fa.get(x)
+		if len(a) == 0 {
+			continue
+		}
+		ia := bytes.Index(sb, a)
+		if ia < 0 {
+			continue
+		}
+		for j, fb := range fields {
+			b := fb.get(x)
+			if i == j || len(b) == 0 {
+				continue
+			}
+			ib := bytes.Index(sb[ia+len(a):], b)
+			if ib < 0 {
+				continue
+			}
+			sep := sb[ia+len(a) : ia+len(a)+ib]
+			joined := append(append(append([]byte(nil), a...), sep...), b...)
+			for _, present := range []bool{false, true} {
+				y := x
+				fa.set(&y, joined, true)
+				fb.set(&y, nil, present)
+				out = append(out, y)
+			}
+		}
+	}
+	return out
 }
